@@ -26,6 +26,7 @@ type Outcome struct {
 	label string
 	st    *State
 	vals  []Val
+	pos   token.Pos // return statement that produced an oReturn outcome
 }
 
 func normal(st *State) []Outcome { return []Outcome{{kind: oNormal, st: st}} }
@@ -376,7 +377,7 @@ func (fc *FnCtx) exec(st *State, s ast.Stmt, label string) []Outcome {
 				vals = append(vals, v)
 			}
 		}
-		return []Outcome{{kind: oReturn, st: st, vals: vals}}
+		return []Outcome{{kind: oReturn, st: st, vals: vals, pos: s.Pos()}}
 	case *ast.BranchStmt:
 		lbl := ""
 		if s.Label != nil {
